@@ -608,6 +608,7 @@ def gen_mutations(rng, tree, password, n, exhaustive=False):
                 out.append({"t": "attr-ren", "path": p, "k": k, "k2": k + "x"})
                 out.append({"t": "attr-ren", "path": p, "k": k, "k2": rng.choice(BLACKLIST)})
             out.append({"t": "el-ren", "path": p, "name": nd[0] + "x"})
+            out.append({"t": "el-ren", "path": p, "name": "xml:" + nd[0]})   # qualified name with the always-bound prefix
             out.append({"t": "attr-add", "path": p, "k": rng.choice(attr_names), "v": rng.choice(TRICKY[:-1] + ["1"]), "idx": rng.randrange(8)})
             out.append({"t": "el-add", "path": p, "idx": rng.randrange(8), "name": rng.choice(names)})
             if p:
@@ -629,12 +630,12 @@ def gen_mutations(rng, tree, password, n, exhaustive=False):
             out.append({"t": "attr-add", "path": p, "k": rng.choice(attr_names), "v": rng.choice(TRICKY[:-1] + ["1", "1.1.1"]), "idx": rng.randrange(8)})
         elif c == 7 and signed:
             k = rng.choice(signed)[0]
-            out.append({"t": "attr-ren", "path": p, "k": k, "k2": rng.choice([k + "x", k[:-1] or "q", k.lower() if k.lower() != k else k.upper(), rng.choice(attr_names), "xmlns", "Signature"])})
+            out.append({"t": "attr-ren", "path": p, "k": k, "k2": rng.choice([k + "x", k[:-1] or "q", k.lower() if k.lower() != k else k.upper(), rng.choice(attr_names), "xmlns", "Signature", "xml:" + k])})
         elif c == 8 and len(signed) >= 2:
             a, b = rng.sample(signed, 2)
             out.append({"t": "attr-swap", "path": p, "k": a[0], "k2": b[0]})
         elif c == 9:
-            out.append({"t": "el-ren", "path": p, "name": rng.choice([nd[0] + "x", nd[0][:-1] or "q", nd[0].lower(), rng.choice(names)])})
+            out.append({"t": "el-ren", "path": p, "name": rng.choice([nd[0] + "x", nd[0][:-1] or "q", nd[0].lower(), rng.choice(names), "xml:" + nd[0], "xml:" + nd[0]])})
         elif c == 10:
             out.append({"t": "el-add", "path": p, "idx": rng.randrange(8), "name": rng.choice(names),
                         "attrs": rng.choice([[], [["Address", "1"]], [["xmlns", "u"]]])})
